@@ -5,8 +5,11 @@ import (
 	"fmt"
 	"os"
 	"path/filepath"
+	"runtime"
 	"strings"
 	"sync"
+	"sync/atomic"
+	"time"
 
 	"github.com/huderlem/poryscript/emitter"
 	"github.com/huderlem/poryscript/lexer"
@@ -129,9 +132,93 @@ func cleanupTmp() {
 	}
 }
 
+// ---- hang / memory watchdog ----
+// A compilation normally takes well under a millisecond. The watchdog (started
+// by TestMain) looks at the compilation in flight: when one has been running
+// for hangLimit, or the heap exceeds memLimit, it saves the input as a replay
+// file, prints a HANG-SUSPECT line and ends the process. The driver then
+// re-runs exactly that input twice in a child with a time limit; only a
+// reproducible non-termination is reported as a violation.
+
+type inflightRec struct {
+	src   string
+	opts  Opts
+	start time.Time
+}
+
+var inflight atomic.Pointer[inflightRec]
+
+const hangLimit = 15 * time.Second
+const memLimit = 6 << 30
+
+// HangCase is the replayable form of a compilation that did not come back.
+type HangCase struct {
+	Src  string `json:"src"`
+	Opts Opts   `json:"opts"`
+}
+
+func startWatchdog() {
+	go func() {
+		for {
+			time.Sleep(250 * time.Millisecond)
+			r := inflight.Load()
+			if r == nil {
+				continue
+			}
+			why := ""
+			if time.Since(r.start) > hangLimit {
+				why = fmt.Sprintf("a compilation has been running for more than %v", hangLimit)
+			} else {
+				var ms runtime.MemStats
+				runtime.ReadMemStats(&ms)
+				if ms.HeapAlloc > memLimit {
+					why = fmt.Sprintf("heap grew to %d MB during one compilation", ms.HeapAlloc>>20)
+				}
+			}
+			if why == "" {
+				continue
+			}
+			id := os.Getenv("VERIF_PROPERTY")
+			if id == "" {
+				id = "C18"
+			}
+			raw, _ := json.Marshal(HangCase{Src: r.src, Opts: r.opts})
+			rf := ReplayFile{Property: id, Test: "TestHang_Compile", Clause: "does-not-terminate", Detail: why, Src: r.src, Case: raw}
+			dir := filepath.Join(verifRoot, "replays", id)
+			os.MkdirAll(dir, 0o755)
+			path := filepath.Join(dir, fmt.Sprintf("hang-%016x.json", hash64(string(raw))))
+			data, _ := json.MarshalIndent(rf, "", " ")
+			os.WriteFile(path, data, 0o644)
+			say("HANG-SUSPECT property=%s replay=%s (%s)", id, path, why)
+			flushStats()
+			os.Exit(3)
+		}
+	}()
+}
+
+// checkHang replays a suspected non-terminating compilation with a time limit.
+func checkHang(c *HangCase) *Violation {
+	done := make(chan Result, 1)
+	go func() { done <- Compile(c.Src, c.Opts) }()
+	select {
+	case <-done:
+		return nil
+	case <-time.After(hangLimit):
+		return viol("does-not-terminate", "compilation did not finish within %v (opts %+v)\n--- source\n%s", hangLimit, c.Opts, c.Src)
+	}
+}
+
+func init() {
+	register("C18", "TestHang_Compile", checkHang, func(c *HangCase) string { return c.Src })
+}
+
 // Compile runs the library pipeline the way main.go does, with recover and the token budget.
 func Compile(src string, o Opts) (res Result) {
 	res.Stage = "parse"
+	if inflight.Load() == nil { // (nested use from checkHang's goroutine keeps the outer record)
+		inflight.Store(&inflightRec{src: src, opts: o, start: time.Now()})
+		defer inflight.Store(nil)
+	}
 	setBudget(int64(4*len(src) + 256))
 	defer setBudget(-1)
 	defer func() {
